@@ -275,6 +275,11 @@ pub fn shrink_tx_case(case: &TxCase) -> Vec<TxCase> {
             c.ops[i].tx.value = U256::ZERO;
             out.push(c);
         }
+        if op.coinbase.is_some() {
+            let mut c = case.clone();
+            c.ops[i].coinbase = None;
+            out.push(c);
+        }
         // disable calldata guard bytes (= disable snippets)
         if op.tx.to.is_some() {
             for j in 0..op.tx.data.len() {
